@@ -3,7 +3,8 @@ import PsyVerif.Model.ExprIO
 open Proto C02
 
 /-! Line protocol of the C02 model.
-* `(w F <expr>)`  → `error` if the writer refuses, else the token list of `render F top`
+* `(w M <expr>)`  → `error` if the writer refuses, else the token list of `render M top` (M: 0 pinned, 1 narrow, 2 wide)
+* `(x <expr>)`    → `1`/`0` : `exposed top` (known-finding class of the narrow writer)
 * `(p <tok> ...)` → the tree `parse` returns, or `none`
 * `(n <expr>)`    → `norm`, or `none`
 * `(c <expr>)`    → `1`/`0` : litsCanonical
@@ -81,6 +82,7 @@ def shSuffix : Suffix → String
   | .none => "_" | .int n => s!"(k {n})" | .sym n => s!"(y {n})"
 
 def letters : List ExpLetter := [.none, .e, .d]
+def modes : List WMode := [.pinned, .narrow, .wide]
 
 def rdTok : Sexp → Option Tok
   | .atom "lp" => some .lp | .atom "rp" => some .rp | .atom "comma" => some .comma | .atom "pct" => some .pct
@@ -105,9 +107,9 @@ def shTok : Tok → String
 def handle (s : Sexp) : String :=
   match s with
   | .list [.atom "w", f, e] =>
-    match rdBool f, rdExpr e with
-    | some fixed, some e =>
-      if wf .expr e then showList shTok (render fixed .top e) else "error"
+    match f.nat? >>= (modes[·]?), rdExpr e with
+    | some m, some e =>
+      if wf .expr e then showList shTok (render m .top e) else "error"
     | _, _ => "bad-input"
   | .list (.atom "p" :: ts) =>
     match ts.mapM rdTok with
@@ -116,6 +118,10 @@ def handle (s : Sexp) : String :=
   | .list [.atom "n", e] =>
     match rdExpr e with
     | some e => (match norm e with | some e' => shExpr e' | none => "none")
+    | none => "bad-input"
+  | .list [.atom "x", e] =>
+    match rdExpr e with
+    | some e => shBool (exposed .top e)
     | none => "bad-input"
   | .list [.atom "c", e] =>
     match rdExpr e with
